@@ -189,6 +189,8 @@ mod rule;
 mod solver;
 mod tokeniser;
 mod value;
+#[cfg(feature = "verif")]
+pub mod verif;
 mod yaml;
 
 #[cfg(feature = "core")]
@@ -206,7 +208,10 @@ pub mod core {
     }
     pub use crate::rule::Detection;
 
+    #[cfg(not(feature = "verif"))]
     use std::collections::HashMap;
+    #[cfg(feature = "verif")]
+    use crate::verif::HashMap;
 
     use crate::document::Document;
     use crate::parser::Expression;
